@@ -10,6 +10,8 @@ from vlib import Infra, log
 
 def wire_key(formula, line):
     e = json.loads(line)
+    if e.get("ev") == "Codec":
+        return "%s:%s:%s:%s" % (formula, e["kind"], e["payload"], e["frag"])
     enc_s = "enc" if e["s"]["keys"] and e["s"]["vout"] else "plain"
     enc_r = ("verify" if e["r"]["vin"] else "lenient") if e["r"]["keys"] else "nokeys"
     if e["attack"] == "version" and formula.startswith("C14_OnlyAuthentic"):
@@ -107,6 +109,11 @@ def wire_stage(work, res, tier, prefixes, replay=None):
             if os.path.exists(p):
                 out.write(open(p).read())
                 os.remove(p)
+    if "C16_" in prefixes and not replay:
+        ct = os.path.join(d, "codec.ndjson")
+        vlib.run_harness(work, binp, "TestVerifLabelCodec", {"VERIF_TRACE": ct})
+        with open(trace, "a") as out:
+            out.write(open(ct).read())
     j = judge_wire(work, trace)
     res.cov["traces_validated_against_impl"] += j["lines"]
     res.cov["evaluations"] += j["lines"]
@@ -125,7 +132,7 @@ def wire_stage(work, res, tier, prefixes, replay=None):
             key = wire_key(formula, lines[ln])
             n0 = len(res.violations)
             res.violation(formula, key, [lines[ln]])
-            if len(res.violations) > n0 and res.violations[-1][2]:
+            if len(res.violations) > n0 and res.violations[-1][2] and json.loads(lines[ln]).get("ev") != "Codec":
                 e = json.loads(lines[ln])
                 c = {k: e[k] for k in ("s", "r", "msg", "path", "peerCrc", "shrinks", "attack", "foreignKey", "otherLabel")}
                 open(res.violations[-1][2] + ".case", "w").write(json.dumps(c) + "\n")
@@ -133,6 +140,9 @@ def wire_stage(work, res, tier, prefixes, replay=None):
     with open(trace) as fh:
         for k, line in enumerate(fh):
             e = json.loads(line)
+            if e.get("ev") == "Codec":
+                classes.add(("codec", e["kind"], e["payload"], e["frag"], e["labelLen"] // 64))
+                continue
             classes.add((e["path"], e["msg"], e["attack"], bool(e["s"]["keys"]) and e["s"]["vout"], bool(e["r"]["keys"]),
                          e["r"]["vin"], e["r"]["skip"], e["s"]["label"] == e["r"]["label"], e["acted"]))
             if k in (5, 700, 4000) and len(res.cov["samples"]) < 3:
